@@ -22,6 +22,7 @@ type Program struct {
 	Funcs  map[string]*ssa.Function // key -> function (see funcKey)
 	ByPkg  map[string]*ssa.Package
 	UserFields map[string]string
+	GlobalFuncs map[string]*ssa.Function // package-level func variables initialised to a function
 }
 
 func LoadProgram(dir string, tags string) (*Program, error) {
@@ -59,6 +60,30 @@ func LoadProgram(dir string, tags string) (*Program, error) {
 			continue
 		}
 		p.ByPkg[pk.PkgPath] = sp
+	}
+	p.GlobalFuncs = map[string]*ssa.Function{}
+	for _, sp := range p.ByPkg {
+		if !strings.HasPrefix(sp.Pkg.Path(), p.Module) {
+			continue
+		}
+		if init := sp.Func("init"); init != nil {
+			for _, b := range init.Blocks {
+				for _, ins := range b.Instrs {
+					if s, ok := ins.(*ssa.Store); ok {
+						if g, ok := s.Addr.(*ssa.Global); ok {
+							switch f := s.Val.(type) {
+							case *ssa.Function:
+								p.GlobalFuncs["glob!"+g.Pkg.Pkg.Path()+"."+g.Name()] = f
+							case *ssa.ChangeType:
+								if fn, ok := f.X.(*ssa.Function); ok {
+									p.GlobalFuncs["glob!"+g.Pkg.Pkg.Path()+"."+g.Name()] = fn
+								}
+							}
+						}
+					}
+				}
+			}
+		}
 	}
 	for fn := range ssautil.AllFunctions(prog) {
 		if fn.Pkg == nil || !p.inRepo(fn) {
